@@ -275,10 +275,10 @@ def obligations(pid, tier):
     scen = [dict(kind=k, frames=f, k=n) for k in ("perfect", "new_id", "exchange") for f in ((2, 3, 4) if quick else (2, 3, 4, 6))
             for n in ((1, 2, 3) if quick else (1, 2, 3, 4)) if not (k == "exchange" and n < 2)]
     return [
-        Obligation("pair_step", pair_step, cases=pair, extras=lazy_extras, split_depth=8,
+        Obligation("pair_step", pair_step, cases=pair, extras=lazy_extras,
                    desc="CLEAR on an arbitrary (previous, current) frame pair vs the definitions; with the accumulator "
                         "obligation this covers histories of any length for per-frame sizes within the bound"),
-        Obligation("accumulator", accumulator, cases=acc2, extras=lazy_extras, split_depth=9,
+        Obligation("accumulator", accumulator, cases=acc2, extras=lazy_extras,
                    desc="CLEAR over F frames equals the sums of the per-pair values and the MOTA formula of the sums"),
         Obligation("renaming", renaming, cases=[dict(rmax=1), dict(rmax=2)], extras=lazy_extras,
                    desc="scores invariant under injective renaming of estimate / ground-truth ids"),
